@@ -113,6 +113,23 @@ func timeModel(name string) interceptFn {
 	case "(*time.Ticker).Stop", "(*time.Ticker).Reset":
 		return func(it *Interp, fn *ssa.Function, a []Value) Value { return nil }
 	}
+	if name == "(time.Duration).Seconds" {
+		// over-approximation: any finite non-negative number of seconds for a non-negative duration, 0 for 0
+		// (the exact sec + nsec/1e9 needs 64-bit division by 1e9, which no installed solver decides; DESIGN §9)
+		return func(it *Interp, fn *ssa.Function, a []Value) Value {
+			d := it.term(a[0], "d")
+			c := it.ctx
+			secs := it.fresh("seconds", SFP)
+			zero := c.FPConst(0)
+			it.assume(c.Not(c.fp1(OFPIsNaN, secs)))
+			it.assume(c.fpcmp(OFPLE, secs, c.FPConst(1e12)))
+			it.assume(c.fpcmp(OFPLE, c.FPConst(-1e12), secs))
+			it.assume(c.Implies(c.SLE(c.BV(0, 64), d), c.fpcmp(OFPLE, zero, secs)))
+			it.assume(c.Implies(c.SLT(d, c.BV(0, 64)), c.fpcmp(OFPLE, secs, zero)))
+			it.assume(c.Implies(c.Eq(d, c.BV(0, 64)), c.fpcmp(OFPEq, secs, zero)))
+			return secs
+		}
+	}
 	if strings.HasPrefix(name, "(time.Duration).") || strings.HasPrefix(name, "(time.Month).") || strings.HasPrefix(name, "(time.Weekday).") {
 		if strings.HasSuffix(name, ".String") {
 			return func(it *Interp, fn *ssa.Function, a []Value) Value { return it.constString("<duration>") }
